@@ -206,7 +206,7 @@ func prevValues(s State, id string) map[string]float64 {
 	return nil
 }
 
-// rootImportance: documented importance (A.8) of the three criteria of a rootRequest (considered alternatives only).
+// rootImportance: documented importance (A.8) of the declared criteria of a request (considered alternatives only).
 func rootImportance(req M) map[string]float64 {
 	method := asS(req["preferenceFunction"])
 	chose := toStrings(req["choseToMake"])
@@ -218,8 +218,12 @@ func rootImportance(req M) map[string]float64 {
 		}
 		vals[asS(asM(a)["id"])] = m
 	}
+	var cids []string
+	for _, c := range asL(req["criteria"]) {
+		cids = append(cids, asS(asM(c)["id"]))
+	}
 	w := map[string]float64{}
-	for _, c := range critIDs(3) {
+	for _, c := range cids {
 		if x, ok := rootWeight(req, c); ok {
 			w[c] = x
 		}
@@ -227,19 +231,19 @@ func rootImportance(req M) map[string]float64 {
 	imp := map[string]float64{}
 	switch method {
 	case "weightedSum":
-		for _, c := range critIDs(3) {
+		for _, c := range cids {
 			for _, a := range chose {
 				imp[c] += w[c] * vals[a][c]
 			}
 		}
 	case "owa", "satisfactionHeuristic":
-		for _, c := range critIDs(3) {
+		for _, c := range cids {
 			for _, a := range chose {
 				imp[c] += vals[a][c]
 			}
 		}
 	case "majorityHeuristic", "aspectEliminationHeuristic", "electreIII":
-		for _, c := range critIDs(3) {
+		for _, c := range cids {
 			imp[c] = w[c]
 		}
 	default:
@@ -250,6 +254,24 @@ func rootImportance(req M) map[string]float64 {
 
 func c16Run(s *Shard) {
 	cur = s
+	// many criteria with ratios whose float product with the criteria count lands just below a whole number
+	for _, e := range floorEdgeCounts() {
+		for _, method := range []string{"weightedSum", "majorityHeuristic", "electreIII"} {
+			for _, o := range []string{"", "strongest", "random"} {
+				if !s.Take() {
+					continue
+				}
+				p := M{"ratio": e[1], "randomSeed": 4}
+				if o != "" {
+					p["ordering"] = o
+				}
+				c := &Case{Prop: "C16", Kind: "reversal", Req: withBiases(wideRequest(method, int(e[0])), []M{bias("preferenceReversal", p)})}
+				s.Evals++
+				s.Begin(c)
+				s.Report(c16Check(c))
+			}
+		}
+	}
 	prefixes := statePrefixes(!quick(s))
 	// inserted right after the single-bias prefixes, so that every data variant of the roots runs them too
 	ownP := ownPrefixes(bias("preferenceReversal", M{"ratio": 1.0}))
@@ -263,7 +285,7 @@ func c16Run(s *Shard) {
 	sampled := false
 	for _, method := range allMethods {
 		for _, subset := range []bool{false, true} {
-			for variant := 0; variant < 7; variant++ { // observed range, declared range, c1 strictly negative, c3 single-valued, undeclared extra values, c3 at 1e-9 scale, never-considered alternatives beyond both ends
+			for variant := 0; variant < 8; variant++ { // observed range, declared range, c1 strictly negative, c3 single-valued, undeclared extra values, c3 at 1e-9 scale, never-considered alternatives beyond both ends
 				root := rootRequest(method, subset, variant == 1)
 				if variant == 2 {
 					root = negativeVariant(root)
@@ -278,6 +300,13 @@ func c16Run(s *Shard) {
 				}
 				if variant == 6 {
 					root = wideVariant(root)
+				}
+				if variant == 7 {
+					// nobody is considered (an explicitly empty choseToMake): every alternative is "known only"
+					if subset || method == "majorityHeuristic" || method == "satisfactionHeuristic" || method == "aspectEliminationHeuristic" {
+						continue
+					}
+					root["choseToMake"] = L{}
 				}
 				if variant == 4 {
 					if method == "weightedSum" || method == "owa" || method == "choquetIntegral" {
